@@ -381,3 +381,59 @@ for _prop in ("C01", "C02"):
             S.forall("every-returned-row-passes-the-filter", t, lambda q: flt.value_terms([zreal(t.at([q[0], (c,)])) for c in range(2)])[0])
     _rf.__name__ = "random_uniform_sampler_with_filter"
     scenario(_prop, [RUS + "._sample_n_points_with_filter", RUS + "._sample_points_with_filter", PS + "._apply_filter", PS + "._cut_tensor_to_length_n", PS + "._check_iteration_number", PS + "._sample_for_ith_param"], configs=["dep/K"])(_rf)
+
+
+# ----------------------------------------------------------------------------- Gaussian sampler (C01/C02)
+GAUSS = "torchphysics.problem.samplers.random_samplers.GaussianSampler"
+
+for _prop in ("C01", "C02"):
+    def _gauss(S, _prop=_prop):
+        """GaussianSampler: proposals from a normal law (arbitrary reals), filtered by the domain's own _contains,
+        accumulated per parameter row until n points, cut to n.  Nested loops under contract (partial correctness):
+        exactly n rows per parameter row, every row inside the domain at its own parameter row and carrying it."""
+        su = _setup(S)
+        haveK = su.K is not None
+        ncols = 3 if haveK else 2
+        keys = [("x", R2), ("t", R1)] if haveK else [("x", R2)]
+
+        def Pk(k, row):
+            if not haveK:
+                return su.dom.in_pred(row[:2], [])
+            tk = zreal(su.T.val.at([(k,), ()]))
+            return z3.And(su.dom.in_pred(row[:2], [tk] if su.dep else []), row[2] == tk)
+
+        fq = GAUSS + "._sample_points"
+        S.loop(fq, 0, acc_points_loop(S, "sample_points", keys, su.n, ncols, lambda k, j, row: Pk(k, row), "parameter-loop"))
+        S.loop(fq, 1, filtered_points_loop(S, "new_sample_points", "current_num_of_points", {"new_points": lambda: None}, keys, ncols, Pk, "proposal-loop", lambda env: zint(env.lookup("i")[1])))
+        smp = S.new(GAUSS, su.dom.obj, su.n, [S.real("m0"), S.real("m1")], S.real("std"))
+        pts = S.method(smp, "sample_points", su.params)
+        su.check(S, _prop, pts)
+    _gauss.__name__ = "gaussian_sampler"
+    scenario(_prop, [GAUSS + "._sample_points", GAUSS + "._check_inside_domain", GAUSS + ".__init__", GAUSS + "._check_mean_correct_dim", PS + "._set_sampled_points", PS + "._cut_tensor_to_length_n"], configs=CFG)(_gauss)
+
+
+# ----------------------------------------------------------------------------- Latin hypercube sampler (C01/C02)
+LHS = "torchphysics.problem.samplers.random_samplers.LHSSampler"
+
+for _prop in ("C01", "C02"):
+    def _lhs(S, _prop=_prop):
+        """LHSSampler: stratified proposals in the bounding box, filtered by the domain's own _contains, filled up
+        with uniform points of the domain (RandomUniformSampler, inlined).  post: exactly n rows per parameter row,
+        every row inside the domain at its own parameter row and carrying it."""
+        su = _setup(S)
+        haveK = su.K is not None
+        ncols = 3 if haveK else 2
+        keys = [("x", R2), ("t", R1)] if haveK else [("x", R2)]
+
+        def Pk(k, row):
+            if not haveK:
+                return su.dom.in_pred(row[:2], [])
+            tk = zreal(su.T.val.at([(k,), ()]))
+            return z3.And(su.dom.in_pred(row[:2], [tk] if su.dep else []), row[2] == tk)
+
+        S.loop(LHS + "._sample_points", 0, acc_points_loop(S, "sample_points", keys, su.n, ncols, lambda k, j, row: Pk(k, row), "parameter-loop"))
+        smp = S.new(LHS, su.dom.obj, su.n)
+        pts = S.method(smp, "sample_points", su.params)
+        su.check(S, _prop, pts)
+    _lhs.__name__ = "lhs_sampler"
+    scenario(_prop, [LHS + "._sample_points", LHS + "._create_lhs_in_bounding_box", LHS + "._check_lhs_inside", LHS + "._append_random_points", RUS + "._sample_points"], configs=CFG)(_lhs)
